@@ -303,13 +303,24 @@ def run_model(lines, timeout=1200):
     return outs
 
 
+USES_ZONE_ID = {'bt', 'mt', 'cv', 'nt', 'pt', 'drop', 'reload', 'preds', 'hints', 'ntchain', 'ptchain', 'fmt', 'parse', 'subtr'}
+
+
 def run_parallel(fn, lines, chunks=NCPU):
     """split lines into chunks, run fn(chunk) in threads, concatenate"""
     import concurrent.futures
     if len(lines) < 2000 or chunks <= 1:
         return fn(lines)
     sz = (len(lines) + chunks - 1) // chunks
-    parts = [lines[i:i + sz] for i in range(0, len(lines), sz)]
+    # a chunk must not start with an op that refers to a zone defined by an earlier line
+    cuts = [0]
+    i = sz
+    while i < len(lines):
+        while i < len(lines) and lines[i].split(' ', 1)[0] in USES_ZONE_ID: i += 1
+        if i < len(lines): cuts.append(i)
+        i += sz
+    cuts.append(len(lines))
+    parts = [lines[a:b] for a, b in zip(cuts, cuts[1:]) if a < b]
     with concurrent.futures.ThreadPoolExecutor(max_workers=chunks) as ex:
         outs = list(ex.map(fn, parts))
     r = []
